@@ -70,7 +70,11 @@ for f in sorted(SRC.glob(glob)):
     for (a, b, new) in ss:
         line = text.count('\n', 0, a) + 1
         key = f'{f.name}:{line}:{a}'
-        if key in results:
+        if os.environ.get('MUT_ONLY_MISSED'):
+            old = results.get(key)
+            if not old or old.get('suite') != 'passes' or any(x in ('caught', 'no-input') for x in old.get('checks', {}).values()):
+                continue
+        elif key in results:
             continue
         S = Path(tempfile.mkdtemp(prefix='mut-', dir='/var/tmp'))
         try:
@@ -100,6 +104,8 @@ for f in sorted(SRC.glob(glob)):
                     p = subprocess.run([str(ROOT / 'check'), ck], capture_output=True, text=True, env=env, cwd=ROOT)
                     lines = [l for l in p.stdout.splitlines() if l.startswith('VIOLATION')]
                     rec['checks'][ck] = 'HELD' if p.returncode == 0 else ('no-input' if lines and lines[-1].endswith('no-failing-input-found') else 'caught' if lines else f'exit{p.returncode}')
+            if os.environ.get('MUT_ONLY_MISSED') and out_path.exists():
+                results = json.loads(out_path.read_text())
             results[key] = rec
             print(key, rec.get('suite'), rec.get('checks'), rec['old'][:60], flush=True)
         finally:
